@@ -15,12 +15,17 @@ def k8(ctx):
             return {"ok": False, "broken": "driver harness failed", "detail": out[-3000:]}
         r = json.load(open(os.path.join(wd, "k8.json")))
         parts = {}
-        for key in ("c15", "c16"):
-            cases = r[key]
+        known = {k.get("case"): k for k in load_known() if k.get("kind") == "k8" and k.get("status") == "open"}
+        witness = {}
+        for key in ("c13", "c15", "c16"):
+            cases = r.get(key) or []
+            for c in cases:
+                if c["name"] in known:
+                    witness[c["name"]] = {"finding": known[c["name"]]["id"], "reproduces": not c["ok"], "detail": c.get("detail", "")[:400]}
             dis = [{"case": c["name"], "impl": c.get("detail", "")[:800], "reference": "holds", "size": i}
-                   for i, c in enumerate(cases) if not c["ok"]]
+                   for i, c in enumerate(cases) if not c["ok"] and c["name"] not in known]
             parts[key] = {"n": len(cases), "n_dis": len(dis), "dis": dis, "cases": [c["name"] for c in cases]}
         return {"ok": all(p["n_dis"] == 0 for p in parts.values()), "parts": parts,
                 "evaluations": sum(p["n"] for p in parts.values()), "distinct_nontrivial": sum(p["n"] for p in parts.values()),
-                "samples": [f"{k}: {', '.join(p['cases'])}" for k, p in parts.items()]}
+                "samples": [f"{k}: {', '.join(p['cases'])}" for k, p in parts.items()], "witness": witness}
     return ctx.stage("k8", run)
